@@ -8,7 +8,10 @@ CONSTANTS MaxLen, Small
 
 VARIABLES calls, S
 
-Call(k, a, t, s, add, rem, key) == [k |-> k, a |-> a, t |-> t, s |-> s, add |-> add, rem |-> rem, key |-> key]
+(* wf: the call attaches files (create, comment, edit); elsewhere FALSE.  To keep the alphabet small author 1 attaches files
+   to what it adds or edits and author 2 does not; creation comes in both forms (two initial states). *)
+CallF(k, a, t, s, add, rem, key, wf) == [k |-> k, a |-> a, t |-> t, s |-> s, add |-> add, rem |-> rem, key |-> key, wf |-> wf]
+Call(k, a, t, s, add, rem, key) == CallF(k, a, t, s, add, rem, key, k \in {"comment", "edit"} /\ a = 1)
 
 Adds == {<<>>, <<1>>, <<2, 1>>, <<1, 1>>, <<3, 1, 2>>}
 Rems == {<<>>, <<1>>, <<3, 1>>}
@@ -31,7 +34,7 @@ SmallAlphabet ==
 
 Alpha == IF Small THEN SmallAlphabet ELSE Alphabet
 
-Init == calls = <<Call("create", 1, "", "", <<>>, <<>>, "")>> /\ S = Apply(Empty, Call("create", 1, "", "", <<>>, <<>>, ""))
+Init == \E wf \in BOOLEAN : LET c == CallF("create", 1, "", "", <<>>, <<>>, "", wf) IN calls = <<c>> /\ S = Apply(Empty, c)
 Next == /\ Len(calls) <= MaxLen
         /\ \E c \in Alpha : calls' = Append(calls, c) /\ S' = Apply(S, c)
 Spec == Init /\ [][Next]_<<calls, S>>
